@@ -3,6 +3,7 @@ package main
 import (
 	"encoding/json"
 	"fmt"
+	"golang.org/x/tools/go/ssa"
 	"os"
 	"path/filepath"
 	"sort"
@@ -124,10 +125,58 @@ func (r *Run) exception(construct string) (string, bool) {
 // properties keep their exceptions under the id they were written for).
 func (r *Run) exceptionFor(rule, construct string) (string, bool) {
 	reason, ok := exceptionTable[rule+"|"+construct]
+	if !ok {
+		// an exception granted to a function for what it is (the start-up loader, a test fixture) extends to an
+		// unexported helper whose only caller is that function: the reason given for the caller holds for code
+		// that runs nowhere else.  Two levels.
+		if i := strings.Index(construct, ":"); i > 0 && r.W != nil {
+			name, rest := construct[:i], construct[i:]
+			for depth := 0; depth < 2 && !ok; depth++ {
+				f := r.W.funcByFname(name)
+				if f == nil || f.Object() == nil || f.Object().Exported() {
+					break
+				}
+				var caller *ssa.Function
+				single := true
+				for _, c := range callSitesOf(r.W)[f] {
+					p := c.Parent()
+					for p.Parent() != nil {
+						p = p.Parent()
+					}
+					if caller == nil {
+						caller = p
+					} else if caller != p {
+						single = false
+					}
+				}
+				if caller == nil || !single {
+					break
+				}
+				name = fname(caller)
+				if reason, ok = exceptionTable[rule+"|"+name+rest]; ok {
+					reason = "(helper called only from " + name + ") " + reason
+				}
+			}
+		}
+	}
 	if ok {
 		r.Exceptions = append(r.Exceptions, fmt.Sprintf("%s %s: %s", r.cur.ID, construct, reason))
 	}
 	return reason, ok
+}
+
+var funcByFnameMemo = map[*World]map[string]*ssa.Function{}
+
+func (w *World) funcByFname(name string) *ssa.Function {
+	m, ok := funcByFnameMemo[w]
+	if !ok {
+		m = map[string]*ssa.Function{}
+		for _, f := range w.RepoFuncs {
+			m[fname(f)] = f
+		}
+		funcByFnameMemo[w] = m
+	}
+	return m[name]
 }
 
 // ---------------------------------------------------------------------------------------------
@@ -140,10 +189,10 @@ type KnownFinding struct {
 	Demonstration string `json:"demonstration,omitempty"`
 }
 type FixedFinding struct {
-	Property  string `json:"property"`
-	Commit    string `json:"commit"`
-	Rule      string `json:"rule,omitempty"`
-	Construct string `json:"construct,omitempty"`
+	Property   string `json:"property"`
+	Commit     string `json:"commit"`
+	Rule       string `json:"rule,omitempty"`
+	Construct  string `json:"construct,omitempty"`
 	WhatFailed string `json:"what_failed"`
 }
 type KnownFindings struct {
@@ -280,17 +329,17 @@ func (r *Run) finish(verif string, writeEvidence bool) int {
 		"distinct_nontrivial": len(nontriv),
 		"rule": "one evaluation = one (rule, construct) obligation decided on the current source; distinct = distinct (rule, construct) keys; " +
 			"non-trivial = the obligation's region contained at least one branch, call or table entry that the rule had to examine (as flagged by the rule)",
-		"samples":       samples,
-		"obligations":   len(r.Obls),
-		"discharged":    discharged,
-		"exhaustive":    true,
-		"rules_run":     r.RuleCounts,
-		"analysed":      r.W.describe(),
-		"notes":         r.Notes,
+		"samples":                 samples,
+		"obligations":             len(r.Obls),
+		"discharged":              discharged,
+		"exhaustive":              true,
+		"rules_run":               r.RuleCounts,
+		"analysed":                r.W.describe(),
+		"notes":                   r.Notes,
 		"known_findings_reported": len(known),
-		"undecided":     len(undec),
-		"exceptions_used": r.Exceptions,
-		"checker_cmd":   "bin/dvidlint -prop " + r.Prop + " -tier " + r.Tier,
+		"undecided":               len(undec),
+		"exceptions_used":         r.Exceptions,
+		"checker_cmd":             "bin/dvidlint -prop " + r.Prop + " -tier " + r.Tier,
 	}
 	assume := append([]string{
 		"golang.org/x/tools v0.29.0 go/packages, go/types, go/ssa, callgraph/vta are correct",
